@@ -89,7 +89,8 @@ ApplyParse(m, o, e, obj, step) ==
 ApplyPastify(m, o, e, obj, step) ==
   \* C08: a bound that is not a whole number of sampling periods may already be rejected by pastify() (which rewrites the
   \* bounds); if pastify() accepts, the first evaluation must reject (clause units.nonmultiple in Apply)
-  IF o.status = "nonint" /\ e.exc = "RTAMT" THEN R(m, [o EXCEPT !.dead = TRUE], Ok, 0) ELSE
+  \* (a refused pastify() leaves the object as it was - parsed: the sampling period may be corrected and pastify() called again)
+  IF o.status = "nonint" /\ e.exc = "RTAMT" THEN R(m, o, Ok, 0) ELSE
   IF CanPastify(m) THEN R(PastifyF(m, IF "ltl" \in DOMAIN obj THEN {"ltlDelay"} ELSE {}), o, ExcClass(TRUE, e, "pastify.exc", step), 0)
   \* pastify() again on a future-free installed formula: harmless; after updates only reset() is specified (Rtamt!RepastifyF)
   ELSE IF CanRepastify(m) THEN R(RepastifyF(m), o, ExcClass(TRUE, e, "pastify.exc", step), 0)
